@@ -1,4 +1,4 @@
-From Coq Require Import List NArith Bool Lia.
+From Coq Require Import List NArith Bool Arith Lia.
 Import ListNotations.
 From V Require Import Fix Sem Prod.
 
@@ -98,12 +98,25 @@ Definition universe (A B : ta) : list mp := list_prod (states A) (sublists (QB B
 Lemma mstep_bounded A B S : incl S (universe A B) -> incl (mstep A B S) (universe A B).
 Proof. intros _ x Hx. apply mstep_in in Hx as [r [Ss [Hr [_ ->]]]]. apply in_prod; [apply rule_states; auto | apply filter_sublist]. Qed.
 
+Lemma sublists_length l : length (sublists l) = 2 ^ length l.
+Proof. induction l as [|x l IH]; simpl; auto. rewrite app_length, map_length, IH. lia. Qed.
+
+Lemma universe_fuel A B : S (length (universe A B)) <= 2 ^ (length (states A) + length (QB B)).
+Proof.
+  unfold universe, mp. rewrite prod_length, sublists_length, Nat.pow_add_r.
+  set (a := length (states A)). set (p := 2 ^ length (QB B)).
+  assert (Ha : a < 2 ^ a) by (apply Nat.pow_gt_lin_r; lia).
+  assert (Hp : 1 <= p) by (unfold p; clear; induction (length (QB B)); simpl; lia).
+  nia.
+Qed.
+
+(* 2^(|Q_A| + |Q_B|) rounds, nested (logarithmic fuel); the iteration stops at the fixpoint *)
 Definition macro_reach (A B : ta) : list mp :=
-  saturate mp mp_eq_dec (mstep A B) (S (length (universe A B))) [].
+  saturate2 mp mp_eq_dec (mstep A B) (length (states A) + length (QB B)) [].
 
 Theorem macro_reach_spec A B q S : In (q, S) (macro_reach A B) <-> exists t, reach A t q /\ S = evalset B t.
 Proof.
-  unfold macro_reach. rewrite (saturate_lfp mp mp_eq_dec (mstep A B) (mstep_mono A B) (universe A B) (mstep_bounded A B)).
+  unfold macro_reach. rewrite (saturate2_lfp mp mp_eq_dec (mstep A B) (mstep_mono A B) (universe A B) (mstep_bounded A B) _ (universe_fuel A B)).
   split.
   - intros D. remember (q, S) as x eqn:Ex. revert q S Ex. induction D as [R x _ IH Hx]. intros q S ->.
     apply mstep_in in Hx as [r [Ss [Hr [F E]]]]. inversion E; subst. clear E.
